@@ -93,6 +93,17 @@ def r16a(P, R):
             body_atoms = [n for n in subnodes(explicit["{"]["body"]) if n.get("k") == "If"]
             R.check("R16-a", "js-template:dollar-flag", bool(body_atoms), "`{` is escaped only after `$`",
                     "the `{` arm is not conditional on the previous `$`", loc=jw.loc())
+    # the `$` flag is recomputed from the current character alone (`$$` followed by `{` must still be escaped)
+    pvj = Prov(jw)
+    flag_assigns = [n for n in jw.walk() if n.get("k") == "Assign" and n["l"].get("k") == "Path" and n["l"].get("name") == "dollar_flag"]
+    R.floor("R16-a", "dollar-flag updates", len(flag_assigns), 1)
+    for n in flag_assigns:
+        refs = [x for x in subnodes(n["r"]) if x.get("k") == "Path" and x.get("name") == "dollar_flag"]
+        lits = [x.get("v") for x in subnodes(n["r"]) if x.get("k") == "Lit"]
+        R.check("R16-a", "js-template:dollar-flag-update", not refs and lits == ["$"],
+                "flag := (c == '$'), independent of its previous value",
+                "the `$`-seen flag is updated from %s: after an even run of `$` a following `{` is written unescaped and `${` "
+                "becomes a live substitution" % ("its own previous value" if refs else lits), loc=jw.loc())
     # every text path goes through `write`
     wf = P.fn("<sourcemap_writer::js_string_writer::JsStringWriter as sourcemap_writer::writer::SourceMapWriter>::write_for")
     R.check("R16-a", "js-template:write_for", jw.path in P.callees_of(wf)[0], "write_for delegates to the escaping write",
@@ -175,6 +186,46 @@ def r16e(P, R):
     R.floor("R16-e", "method calls inspected", n, 300)
 
 
+def r16f(P, R):
+    """separator discipline: a branch that prints list elements without a separator may only be taken for < 2 elements"""
+    scope, impls = printer_scope(P)
+    n = 0
+    for p in scope:
+        f = P.fns[p]
+        if "graphql_printer::schema::" in p:
+            continue
+        for node in f.walk():
+            if node.get("k") != "If":
+                continue
+            c = node["cond"]
+            while c.get("k") == "DropTemps":
+                c = c["e"]
+            if c.get("k") != "Binary" or c.get("op") not in ("<", "<=", "==", ">", ">="):
+                continue
+            l, r = c["l"], c["r"]
+            if not (l.get("k") == "MethodCall" and l["method"] == "len" and lit_value(r) is not None):
+                # also `let len = x.len(); if len < 2`
+                if not (l.get("k") == "Path" and lit_value(r) is not None and "usize" == l.get("t")):
+                    continue
+            try:
+                k = int(lit_value(r))
+            except Exception:
+                continue
+            op = c["op"]
+            if op not in ("<", "<="):
+                continue
+            max_compact = k - 1 if op == "<" else k
+            # does the compact (then) branch write a separator inside its loop?
+            then_lits = [x for x in str_lits_in(node["then"])]
+            has_sep = any(s.strip(" ") in (",", "\n", ",\n") or s in (", ", "\n") for s in then_lits if s not in (": ",))
+            n += 1
+            R.check("R16-f", "compact-threshold:%s#%d" % (short(f.path), n), max_compact <= 1 or has_sep,
+                    "separator-less form only for at most %d element(s)" % max_compact,
+                    "%s prints up to %d elements in its compact form, which writes no separator between elements: the printed text "
+                    "does not re-parse (e.g. `{a: 1b: 2}`)" % (f.path, max_compact), loc=f.loc())
+    R.floor("R16-f", "compact/multiline thresholds", n, 3)
+
+
 def r16c(P, R):
     nb = P.fn("nitrogql_cli::builtins::nitrogql_builtins")
     rb = P.fn("nitrogql_cli::builtins::remove_builtins")
@@ -219,7 +270,7 @@ def r16c(P, R):
                 "server schema is printed into `%s`, not the template-literal writer" % wt, loc=rg.loc())
 
 
-RULES = [("R16-a", r16a), ("R16-b", r16b), ("R16-c", r16c), ("R16-e", r16e)]
+RULES = [("R16-a", r16a), ("R16-b", r16b), ("R16-c", r16c), ("R16-e", r16e), ("R16-f", r16f)]
 EXPLANATION = (
     "Static necessary conditions for print/re-parse fidelity: (R16-a) escape tables — the single-line string printer has "
     "an escaping arm for every character the GraphQL grammar forbids raw, the block-string printer escapes the triple "
